@@ -26,6 +26,9 @@ def in_ty(t, v):
 
 # ------------------------------------------------------------------ histories
 # op: ("lit", [v..]) ("app", v) ("set", idx, v) ("get", idx) ("len",) ("sget", idx) ("print", v)
+#     calls handing the array by plain name to a user function (dynamic arrays are handles):
+#     ("cgrow", [v..])  grow_k(a, v..)  the callee appends k >= 0 elements      ("clen",)  show_len(a)  read only
+#     ("cset", idx, v)  set_T(a, i, v)  xs[i] = v in the callee                 ("cget", idx)  io::Println(get_T(a, i))
 # idx: (kind in {"const","opq"}, type, value);  prog: dict(str=<ascii str>, init=[..], ops=[..])
 
 def idx_src(i, pre, n):
@@ -43,6 +46,15 @@ def render(p):
     L = ['import "std/io";', ""]
     for t in used:
         L += ["fn opq_%s(x: %s) -> %s {" % (t, t, t), "    return x;", "}", ""]
+    for k in sorted({len(o[1]) for o in p["ops"] if o[0] == "cgrow"}):
+        L += ["fn grow_%d(%s) {" % (k, ", ".join(["xs: []i32"] + ["v%d: i32" % j for j in range(k)]))]
+        L += ["    append(&'xs, v%d);" % j for j in range(k)] + ["}", ""]
+    if any(o[0] == "clen" for o in p["ops"]):
+        L += ["fn show_len(xs: []i32) {", "    io::Println(len(xs));", "}", ""]
+    for t in sorted({o[1][1] for o in p["ops"] if o[0] == "cset"}, key=ITY.index):
+        L += ["fn set_%s(xs: []i32, i: %s, v: i32) {" % (t, t), "    xs[i] = v;", "}", ""]
+    for t in sorted({o[1][1] for o in p["ops"] if o[0] == "cget"}, key=ITY.index):
+        L += ["fn get_%s(xs: []i32, i: %s) -> i32 {" % (t, t), "    return xs[i];", "}", ""]
     L.append("fn main() {")
     L.append('    let s: str = "%s";' % p["str"])
     if p["init"]:
@@ -69,6 +81,14 @@ def render(p):
             L.append("    io::Println(c%d);" % n)
         elif o[0] == "print":
             L.append("    io::Println(%d);" % o[1])
+        elif o[0] == "cgrow":
+            L.append("    grow_%d(%s);" % (len(o[1]), ", ".join(["a"] + [str(v) for v in o[1]])))
+        elif o[0] == "clen":
+            L.append("    show_len(a);")
+        elif o[0] == "cset":
+            L.append("    set_%s(a, %d, %d);" % (o[1][1], o[1][2], o[2]))
+        elif o[0] == "cget":
+            L.append("    io::Println(get_%s(a, %d));" % (o[1][1], o[1][2]))
     L += ["}", ""]
     return "\n".join(L)
 
@@ -81,13 +101,14 @@ def py_spec(p):
     for o in p["ops"]:
         if o[0] == "lit": l = list(o[1])
         elif o[0] == "app": l.append(o[1])
-        elif o[0] == "set":
+        elif o[0] == "cgrow": l.extend(o[1])
+        elif o[0] in ("set", "cset"):
             if not valid(o[1][2], len(l)): return out, True
             l[norm(o[1][2], len(l))] = o[2]
-        elif o[0] == "get":
+        elif o[0] in ("get", "cget"):
             if not valid(o[1][2], len(l)): return out, True
             out.append(l[norm(o[1][2], len(l))])
-        elif o[0] == "len": out.append(len(l))
+        elif o[0] in ("len", "clen"): out.append(len(l))
         elif o[0] == "sget":
             if not valid(o[1][2], len(s)): return out, True
             out.append(s[norm(o[1][2], len(s))])
@@ -104,6 +125,10 @@ def coq_op(o):
     if o[0] == "get": return "OGet %s" % coq_idx(o[1])
     if o[0] == "len": return "OLen"
     if o[0] == "sget": return "OSGet %s" % coq_idx(o[1])
+    if o[0] == "cgrow": return "OCallGrow %s" % coq_zs(o[1])
+    if o[0] == "clen": return "OCallLen"
+    if o[0] == "cset": return "OCallSet %s %s" % (coq_idx(o[1]), common.coq_z(o[2]))
+    if o[0] == "cget": return "OCallGet %s" % coq_idx(o[1])
     return "OPrint %s" % common.coq_z(o[1])
 def coq_prog(p):
     return "{| p_str := %s; p_init := %s; p_ops := [%s] |}" % (coq_zs([ord(c) for c in p["str"]]), coq_zs(p["init"]),
@@ -145,9 +170,18 @@ class Gen:
             x = r.random()
             if burst > 0:
                 burst -= 1; ops.append(("app", self.val())); n += 1; continue
-            if x < 0.20:
+            if x < 0.14:
                 ops.append(("app", self.val())); n += 1
                 if r.random() < 0.25: burst = r.choice([2, 4, 5, 9])     # cross capacities 4 / 8 / 16
+            elif x < 0.20:
+                y = r.random()
+                if y < 0.55:
+                    vs = [self.val() for _ in range(r.choice([0, 1, 1, 2, 3, 5]))]; ops.append(("cgrow", vs)); n += len(vs)
+                elif y < 0.70: ops.append(("clen",))
+                elif y < 0.85:
+                    i = self.index(n, r.random() >= p_invalid, 0.0); ops.append(("cset", i, self.val()))
+                else:
+                    ops.append(("cget", self.index(n, r.random() >= p_invalid, 0.0)))
             elif x < 0.26:
                 xs = [self.val() for _ in range(r.choice([0, 1, 2, 3, 4, 5]))]; ops.append(("lit", xs)); n = len(xs)
             elif x < 0.42:
@@ -160,7 +194,7 @@ class Gen:
                 ops.append(("sget", self.index(len(s), r.random() >= p_invalid, pconst if not self.static_only else 0.5)))
             else:
                 ops.append(("print", self.val()))
-        if not any(o[0] in ("get", "sget", "len", "print") for o in ops):
+        if not any(o[0] in ("get", "sget", "len", "print", "cget", "clen") for o in ops):
             ops.append(("get", self.index(n, True, pconst)))
         return dict(str=s, init=init, ops=ops)
 
@@ -182,6 +216,11 @@ def corpus():
                                                         ("app", 10), ("app", 11), ("app", 12), ("app", 13), ("app", 14), ("app", 15), ("app", 16), ("app", 17),
                                                         ("get", C("i32", 16)), ("get", O("i32", -17)), ("set", O("i64", 16), 99), ("get", C("i32", -1)), ("len",), ("get", O("i32", 17))])),
         ("relit", dict(str="x", init=[1, 2, 3, 4, 5], ops=[("lit", [7, 8]), ("get", C("i32", 1)), ("lit", []), ("len",), ("app", 3), ("get", C("i32", 0)), ("get", O("i32", 1))])),
+        ("call-grow", dict(str="x", init=[1, 2, 3], ops=[("get", C("i32", 2)), ("cgrow", [40]), ("cgrow", [50]), ("len",), ("get", C("i32", 3)), ("get", C("i32", -5)),
+                                                          ("set", C("i32", 4), 51), ("get", C("i32", 4))])),
+        ("call-grow0-read", dict(str="x", init=[1, 2, 3], ops=[("cgrow", []), ("clen",), ("get", C("i32", 2)), ("cget", O("u8", 1)), ("get", C("i64", -3)), ("cset", O("i64", -1), 9),
+                                                                ("get", C("i32", 2)), ("cgrow", [7, 8, 9]), ("get", C("i8", 5)), ("set", C("i32", -6), 4), ("cget", O("i32", 0)), ("cget", O("i64", 6))])),
+        ("call-set-wide", dict(str="x", init=[1, 2, 3], ops=[("print", 8), ("cset", O("i64", 2**32), 5), ("print", 9)])),
         ("static-reject", dict(str="x", init=[1, 2, 3], ops=[("print", 1), ("get", C("i32", 3))])),
         ("static-reject-neg", dict(str="x", init=[1, 2, 3], ops=[("set", C("i8", -4), 1)])),
         ("empty", dict(str="", init=[], ops=[("len",), ("sget", O("i32", 0))])),
@@ -358,7 +397,8 @@ def dynamic_stream(run, work, progs, target, tag):
                  sample={"program": render(p), "target": target, "stdout": ob["lines"], "panic": ob["panic"], "accepted": ob["acc"]} if k < 2 else None)
         run.count("%s:%s" % (target, "rejected" if not ob["acc"] else ("panic" if ob["panic"] else "exit0")))
         for o in p["ops"]:
-            if o[0] in ("get", "set", "sget"):
+            if o[0] in ("cgrow", "clen"): run.count("call:" + o[0])
+            if o[0] in ("get", "set", "sget", "cget", "cset"):
                 run.count("index:%s:%s" % (o[0], o[1][0])); run.count("ity:" + o[1][1])
         w = judge(p, ob)
         if w:
@@ -390,13 +430,14 @@ def flow_probes(run, work):
                           {"program": src})
 
 def wasm_ok(p):
-    return all(o[1][1] in WASM_TY for o in p["ops"] if o[0] in ("get", "set", "sget"))
+    return all(o[1][1] in WASM_TY for o in p["ops"] if o[0] in ("get", "set", "sget", "cget", "cset"))
 
 def main(run):
     work = Work()
     thorough = run.tier == "thorough"
     run.rule = ("a case is one straight-line history rendered to a Ferret program (literal of length 0-5, appends incl. bursts across "
-                "capacities 4/8/16, re-assignment by literal, element assignment, indexing with literal/constant/opaque indices of all 13 "
+                "capacities 4/8/16, re-assignment by literal, calls handing the array by name to user functions that append k>=0 elements / only read / "
+                "assign or read an element through the parameter, element assignment, indexing with literal/constant/opaque indices of all 13 "
                 "integer types at -len-2..len+2 and at 2^31/2^32/2^63/2^64 boundaries, len, string indexing); distinct = hash of program text")
     run.trusted += ["harness/c08.py: renderer of histories to Ferret source, reading of exit status / stdout / stderr, python mirror of the reference (cross-checked against Coq spec on every case)",
                     "libc stdio buffering of a pipe is modelled as an unbounded buffer flushed by exit() and fflush, dropped by abort()"]
